@@ -1,15 +1,21 @@
 """C11 - concurrent ingest, flush, rotation and search stay consistent.
 
-Model   spec/Visibility.tla: writer steps (ingest, block becomes searchable, rotation: rotated metadata visible ->
-        removed from unrotated info -> reset) against the three steps of a query (unrotated snapshot, rotated snapshot,
-        search).  TLC checks NoDup / NoLoss / NoInvent / NeverInNeither for every interleaving; the variant without the
-        query-side de-duplication (what the pinned commit did) violates NoDup.
-Binding (B) every TLC-enumerated interleaving (spec/Gen_Visibility.tla) is forced on the real writer and query goroutines
-        with blocking hooks (harness op vis_sched) for several query forms (records, segment-stats count, group-by
-        count/sum); oracle = the property: ids unique, every event searchable before the query began is returned/counted,
-        nothing un-flushed or invented is counted.
-        (C) seeded free-running stress: concurrent bulk ingest on two indexes, 1 ms flush timers, forced rotations and
-        queries; every answer is checked against the same bounds (known ids), a watchdog detects deadlock, and the
+Model   spec/Visibility.tla: writer steps (ingest; block becomes searchable; rotation: [agile tree written] -> rotated
+        metadata visible -> removed from unrotated info -> reset) against the steps of a query at the grain at which the
+        code looks at shared state: unrotated listing, rotated listing, [agile-tree look-up of group-by queries], unrotated
+        check, request planning, column readers' own unrotated check and lookup, record fetch's check and lookup.  TLC checks
+        NoDup / NoLoss / NoInvent / NoDamage / NoPartialTree / NeverInNeither for every interleaving; each repaired deviation
+        of the code stays checkable as a must-violate config (Dedup, Recheck, ReaderFallback, TreeAtomic = FALSE).
+Binding (B) TLC-enumerated interleavings (spec/Gen_Visibility.tla) are forced on the real writer and query goroutines with
+        blocking hooks (harness op vis_sched), sampled per query form and per window class (which writer step falls into
+        which window of the real query of that form) for six query forms; group-by forms run with the persistent-query
+        machinery on and primed, so that rotations write agile trees; oracle = the property: ids unique, every event
+        searchable before the query began is returned/counted, nothing un-flushed or invented, every record whole, the
+        process alive.
+        (S) model assumption "what a query takes from the unrotated info is a snapshot": probe unrot_snapshot.
+        (C) seeded free-running stress: concurrent bulk ingest on one or two indexes, millisecond flush timers, forced
+        rotations and queries (a third of the runs with late-appearing columns, a third with the persistent-query
+        machinery on); every answer is checked against the same bounds (known ids), a watchdog detects deadlock, and the
         quiescent contents must equal the sequential result.
 """
 import json
@@ -23,15 +29,20 @@ CLAIMED = True   # set by the lead after review; only claimed checks enter MANIF
 
 MANIFEST = dict(
     category="model_checking",
-    technique="TLA+ spec of segment visibility during flush/rotation vs query snapshots (TLC, all interleavings) + forced-schedule replay of every TLC interleaving on the real goroutines + seeded concurrent stress checked against the spec's bounds",
-    text=("spec/Visibility.tla models when a block/segment is in the unrotated info and/or the rotated metadata and what a "
-          "query that snapshots both lists then searches returns; TLC checks no-duplicate / no-loss / no-invention over all "
-          "interleavings. Each TLC interleaving is forced on the real flush/rotation and query goroutines through blocking "
-          "verifhook points for record, segment-stats and group-by queries and the answers are checked against the property; "
-          "free-running concurrent stress (2 indexes, millisecond timers, rotations, GOMAXPROCS 1-16) is checked against the "
-          "same bounds, with a deadlock watchdog and a final sequential-equivalence check."),
+    technique="TLA+ spec of segment / agile-tree visibility during flush and rotation vs the query's listing, planning, reader-open and record-fetch steps (TLC, all interleavings, must-violate configs for every repaired deviation) + forced-schedule replay of TLC interleavings on the real goroutines (stratified per query form and window) + snapshot-assumption probe + seeded concurrent stress checked against the spec's bounds",
+    text=("spec/Visibility.tla models when a block/segment is in the unrotated info and/or the rotated metadata, when its agile "
+          "tree file is visible, and what a query returns that lists both sets, looks for trees, re-checks 'is it unrotated' "
+          "when planning, when opening column readers and when fetching record columns; TLC checks no-duplicate / no-loss / "
+          "no-invention / no-damaged-record / no-partial-tree over all interleavings, and the pre-fix variants of four repaired "
+          "defects must violate. TLC interleavings are forced on the real flush/rotation and query goroutines through blocking "
+          "verifhook points (11 writer/query points) for record, filter, segment-stats, filtered-stats and group-by queries, "
+          "sampled so that every window of every query form meets every writer step; answers are checked against the "
+          "property. The modelling assumption that a query works on a snapshot of the unrotated info is probed directly. "
+          "Free-running concurrent stress (1-2 indexes, millisecond timers, rotations, late-appearing columns, persistent-query "
+          "machinery on/off, GOMAXPROCS 1-16) is checked against the same bounds, with a deadlock watchdog, process-death "
+          "detection and a final sequential-equivalence check."),
     note=("Data-race freedom in the Go memory model sense is NOT decided (a TLA+ model has atomic actions); the thorough tier "
-          "runs the stress on a -race build and records reports in the evidence without using them for the verdict. "
+          "does not use the race detector for the verdict (a one-off -race run of the stress is summarised in DESIGN.md section 5). "
           "One writer stream per index in forced schedules; metrics segments are covered by C08/C09 rotation scenarios."),
     design_ref="DESIGN.md 4/C11",
 )
